@@ -284,7 +284,7 @@ func ruleC17(w *World, r *Report) {
 			r.check(g, "R17.4", pname, "constructor only on the low <= high edge", w.Pos(c.Pos()), "dominated by !(low > high)", "an inverted range reaches the constructor")
 			// the two numbers come from different tokens: ports[0] and ports[1]
 			i0, i1 := parseUintIndex(lowV), parseUintIndex(highV)
-			r.check(i0 == 0 && i1 == 1, "R17.4", pname, "low ← ports[0], high ← ports[1]", w.Pos(c.Pos()), fmt.Sprintf("indices %d,%d", i0, i1), fmt.Sprintf("low/high parsed from tokens %d and %d", i0, i1))
+			r.check(i0 == 0 && (i1 == 1 || i1 == lastToken), "R17.4", pname, "low ← ports[0], high ← ports[1]", w.Pos(c.Pos()), fmt.Sprintf("indices %d,%d", i0, i1), fmt.Sprintf("low/high parsed from tokens %d and %d", i0, i1))
 		}
 		n := 0
 		allInstrs(parsePort, func(i ssa.Instruction) {
@@ -354,10 +354,20 @@ func parseUintIndex(v ssa.Value) int64 {
 	}
 	k, ok := constInt(ia.Index)
 	if !ok {
+		// ports[len(ports)-1]: the last token (the second of two, the only one of one)
+		if bo, isB := ia.Index.(*ssa.BinOp); isB && bo.Op == token.SUB {
+			if one, isK := constInt(bo.Y); isK && one == 1 {
+				if lc, isLen := bo.X.(*ssa.Call); isLen && calleeName(lc) == "builtin.len" && lc.Call.Args[0] == ia.X {
+					return lastToken
+				}
+			}
+		}
 		return -1
 	}
 	return k
 }
+
+const lastToken = int64(-2)
 
 // pathClass summarises which classification calls were taken true/false along the path,
 // per receiver root parameter.
